@@ -277,8 +277,43 @@ def hlsl_work(tools, exe_ir, hlslrun, rng, n_ops, quick):
     t1 = time.time()
     zi = c15progs.zero_init_programs(groups=c15progs.WG_GROUPS_TEXT) + c15progs.private_function_programs()
     zstats, zrecs = D.validate(tools, exe_ir, hlslrun, [(n, s) for n, s, _m in zi], ["default51"], 1, rng.fork("zi"), want_validate=False)
+    t2 = time.time()
+    # index leg: the objects RestrictIndexing governs (function / private / workgroup arrays, vectors, matrices, by-value
+    # objects): HLSL of the plain program against the IR meaning of the Restrict policy written out in WGSL, hostile indices
+    ixp = [(n, mac, m) for n, mac, m in c15progs.index_programs() if m["kind"] == "index" and not m.get("atomic")]
+    if quick:
+        ixp = [p for p in ixp if p[2].get("family") == "derived-index" or p[0] in HLSL_INDEX_SAMPLE]
+    tuples = {}
+    for n, _mac, m in ixp:
+        L = m["len"]
+        hv = [0, L[0] - 1, L[0], L[0] + 1, 0x7FFFFFFF, 0x80000000, 0x80000001, 0xFFFFFFFD, 0xFFFFFFFE, 0xFFFFFFFF, 5, 6, 7]
+        tl = [(hv[k], hv[(k + 4) % len(hv)], (k % L[1]) if len(L) > 1 else 0, ((k + 1) % L[1]) if len(L) > 1 else 0) for k in range(len(hv))]
+        if len(L) > 1:
+            tl += [(k % L[0], (k + 1) % L[0], hv[k], hv[(k + 4) % len(hv)]) for k in range(len(hv))]
+        tuples[n] = (tl, m["signed"])
+
+    def fix_input(name, prog, inp, k):
+        tl, signed = tuples[name]
+        tup = tl[k % len(tl)]
+        for gi, g in enumerate(prog.ir["GlobalVariables"]):
+            if g["Name"] == "ix":
+                v = (arr_i if signed else arr_u)(list(tup))
+                inp["ir_globals"][gi] = v
+                for gj, reg, th, _ro in inp["storage"]:
+                    if gj == gi:
+                        inp["buffers"][reg], _m = prog.types.to_bytes(th, v)
+    n_ix = max(len(t[0]) for t in tuples.values()) if tuples else 0
+    istats, irecs = D.validate(tools, exe_ir, hlslrun, [(n, c15progs.expand(mac, "hostile")) for n, mac, _m in ixp], ["default51"],
+                               n_ix, rng.fork("ix"), want_validate=False,
+                               ref_sources={n: c15progs.expand(mac, "restrict") for n, mac, _m in ixp}, fix_input=fix_input)
     return {"ops": (hstats, hrecs), "zi": (zstats, zrecs), "meta": {n: (s, m) for n, s, m in zi},
-            "T": {"operators": round(t1 - t0, 1), "zero_init": round(time.time() - t1, 1)}}
+            "ix": (istats, irecs), "ix_src": {n: c15progs.expand(mac, "hostile") for n, mac, _m in ixp},
+            "T": {"operators": round(t1 - t0, 1), "zero_init": round(t2 - t1, 1), "index": round(time.time() - t2, 1)}}
+
+
+HLSL_INDEX_SAMPLE = ("ix_function_array_u32", "ix_private_array_vec3f", "ix_workgroup_array_s12", "ix_function_vec3_u32", "ix_function_mat4x2",
+                     "ix_function_array_of_arrays", "ix_function_array_vector_signed", "ix_pointer_param_function", "ix_value_array_let",
+                     "ix_value_matrix_let")
 
 
 def hlsl_judge(ctx, W):
@@ -306,8 +341,28 @@ def hlsl_judge(ctx, W):
                           % (meta["space"], "/".join(meta["types"]), meta["site"], rec["verdict"], rec.get("detail")),
                           files={"input.wgsl": src, "record.json": json.dumps({k: v for k, v in rec.items() if k not in ("hlsl",)}, default=str)[:20000]},
                           key=key)
+    istats, irecs = W.get("ix", ({}, []))
+    out["index"] = {k: istats[k] for k in keep if k in istats}
+    out["index"]["programs"] = istats.get("programs")
+    out["index"]["out_of_fragment_reasons"] = istats.get("out_of_fragment_reasons")
+    seen = set()
+    for rec in irecs:
+        if rec["verdict"] in ("mismatch", "hlsl_ub", "reference_rejected"):
+            name = rec.get("program")
+            fam = "derived-index" if "derived" in str(name) else name
+            key = "hlsl:index:restrict:%s:%s" % (fam if rec["verdict"] != "hlsl_ub" else str(name), rec["verdict"])
+            if key in seen:
+                continue
+            seen.add(key)
+            ctx.violation("HLSL, RestrictIndexing (default options), program %s: %s on hostile indices - the emitted HLSL does not confine the "
+                          "access to the object as the Restrict policy (index clamped to the last element) prescribes: %s"
+                          % (name, rec["verdict"], rec.get("detail")),
+                          files={"input.wgsl": W.get("ix_src", {}).get(name, rec.get("src", "")),
+                                 "record.json": json.dumps({k: v for k, v in rec.items() if k not in ("hlsl",)}, default=str)[:20000],
+                                 "emitted.hlsl": str(rec.get("hlsl", ""))},
+                          key=key)
     out["seconds"] = W["T"]
-    return out, hstats["runs"] + zstats["runs"]
+    return out, hstats["runs"] + zstats["runs"] + istats.get("runs", 0)
 
 
 # ------------------------------------------------------------------ MSL leg
